@@ -20,13 +20,9 @@ import os
 import re
 import urllib.parse
 
-import shutil
-import subprocess
-import tempfile
-import time
 import traceback
 
-from harness.common import shrink_str, LEAN, Driver, LeanError
+from harness.common import shrink_str, LEAN
 
 
 def enc(s):
@@ -43,7 +39,7 @@ RULE = ("single code points: every scalar value U+0000..U+10FFFF (thorough) / al
         "of <= 3 tokens (thorough 4) over 20 markup-significant tokens / entity fragments, and of <= 4 (thorough 5) over 17 "
         "reference-syntax tokens for unescape; random strings of 0-24 tokens mixing those with arbitrary Unicode "
         "(BMP, astral, whitespace set, C1); long dense strings: runs of 1..2000 markup-significant characters (quick: 84 lengths; "
-        "thorough: every length) pure and mixed with text / whitespace / non-ASCII / entity fragments, for every filter and "
+        "thorough: every length up to 300, every 7th beyond) pure and mixed with text / whitespace / non-ASCII / entity fragments, for every filter and "
         "the handler; decode.<enc>: histories of (lookup decode.<enc_i> | call closure j on str/bytes/object) - all ordered "
         "pairs of charsets with both call orders and interleaved lookups + random histories of 2-9 operations, vs the "
         "closure-per-lookup model (utf8/latin1/ascii) and vs bytes.decode (8 charsets), plus nested renders and a "
@@ -124,7 +120,7 @@ def dense_strings(ctx):
     """long dense strings, ascending in length: runs of 1..2000 markup-significant characters, pure and mixed with
     text, whitespace, non-ASCII and entity fragments - so that count-limited, length-dependent or chunking
     behaviour shows with a concrete (and, coming first, already short) input"""
-    lens = DENSE_LENS_QUICK if ctx.quick else sorted(set(DENSE_LENS_QUICK) | set(range(1, 2001, 1)))
+    lens = DENSE_LENS_QUICK if ctx.quick else sorted(set(DENSE_LENS_QUICK) | set(range(1, 301)) | set(range(301, 2001, 7)))
     sel = set(DENSE_LENS_QUICK)
     out = []
     for n in lens:
@@ -446,7 +442,7 @@ def corr(ctx, impl, cps, shorts, rnd, dense):
                impl.unescape_counted, nontriv=False)
     # (3c) decode.<enc>: histories of lookups and calls against the closure-per-lookup model ------------------
     st = ctx.stream("corr.decode.sequences")
-    seqs = decode_families(MODEL_ENCS) + [random_decode_ops(ctx.rng, MODEL_ENCS) for _ in range(20000 if ctx.quick else 200000)]
+    seqs = decode_families(MODEL_ENCS) + [random_decode_ops(ctx.rng, MODEL_ENCS) for _ in range(20000 if ctx.quick else 100000)]
     outs = ctx.driver().ask_many([ops_request(o) for o in seqs])
     for ops, o in zip(seqs, outs):
         st["cases"] += 1
@@ -983,27 +979,8 @@ def oracle(ctx, impl, cps, shorts, rnd, dense):
                 "output": repr("\u20ac".encode("latin-1", "htmlentityreplace"))})
 
 
-class LocalDriver(Driver):
-    """common.Driver already works on a private copy of the per-area driver executable (makodrv_filt)"""
-
-    def __init__(self):
-        super().__init__()
-
-    def close(self):
-        pass
-
-
 def run(ctx):
-    drv = None
-    try:
-        drv = ctx._drv = LocalDriver()
-    except LeanError as e:
-        ctx.broke("correspondence:driver", str(e))
-    try:
-        run_streams(ctx)
-    finally:
-        if drv is not None:
-            drv.close()
+    run_streams(ctx)
 
 
 def start_oracle_child(ctx, cps, shorts, rnd, dense):
